@@ -82,6 +82,9 @@ typedef struct {
 typedef struct { int klen[3]; int mode, pages, xn, xconv, ginfo, rank; } cfg_t;
 static mev_t *M[NSTREAM]; static int Mn[NSTREAM];
 static char h_dir[256] = "/dev/shm";
+static volatile double *h_heartbeat = NULL;   /* worker: slot's last_progress, refreshed while a long case is being written / read */
+static double h_now(void);
+#define H_BEAT(i) do { if (h_heartbeat && ((i) & 255) == 0) *h_heartbeat = h_now(); } while (0)
 static int h_verbose = 0;
 static const char *KNAME[3] = { "C42 key A", "C42 key B", "C42 pad" };
 static const char *KATTR[3] = { "fill:#A1B2C3", "fill:#00FF7F", "fill:#123456" };
@@ -101,6 +104,7 @@ static int h_emit(wr_t *w, int s, int kidx, int isend, int force_info /* -1: by 
     if (Mn[s] >= MAXEV) FAIL("harness: too many events in one stream");
     mev_t *e = &M[s][Mn[s]];
     int gi = w->gcount++;
+    H_BEAT(gi);
     static const uint16_t UF[4] = { 0, PARSEC_PROFILING_EVENT_RESCHEDULED, PARSEC_PROFILING_EVENT_COUNTER, PARSEC_PROFILING_EVENT_TIME_AT_START };
     uint16_t uf = UF[(gi + kidx * 2 + isend) & 3];
     int klen = c->klen[kidx], with;
@@ -327,6 +331,7 @@ static int h_readback(const char *path, const cfg_t *c, char *err)
         const dbp_event_t *e = dbp_iterator_current(it);
         for (int i = 0; i < Mn[s]; i++, e = dbp_iterator_next(it)) {
             const mev_t *m = &M[s][i];
+            H_BEAT(i);
             if (!e) FAIL("reader: stream %d ends after %d events, %d were written (first missing: #%d key %s %s)", s, i, Mn[s], m->gidx, KNAME[m->kidx], m->isend ? "end" : "begin");
             if (h_verbose && (i < 16 || (i % 1024) == 0)) printf("    stream %d event %d: written key=%d flags=0x%x id=0x%llx tp=0x%x ilen=%d | read key=%d flags=0x%x id=0x%llx tp=0x%x ilen=%d ts=%llu\n", s, i, m->ukey, m->flags, (unsigned long long)m->eid, m->tp, m->ilen,
                                   dbp_event_get_key(e), dbp_event_get_flags(e), (unsigned long long)dbp_event_get_event_id(e), dbp_event_get_taskpool_id(e), dbp_event_info_len(e, f), (unsigned long long)dbp_event_get_timestamp(e));
@@ -541,6 +546,7 @@ static int worker_case(const char *prog, void *arg)
 {
     wctx_t *w = arg; slot_t *sl = &SH->slot[w->slot];
     if (w->seen++ < w->skip) return 0;
+    h_heartbeat = &sl->last_progress; sl->last_progress = h_now();
     snprintf(sl->cur, sizeof(sl->cur), "%s", prog);
     char err[SX_ERRLEN]; sx_h128_t sig; int nt; long nev; char layout[512];
     int bad = h_case(prog, w->slot, err, &sig, &nt, &nev, layout, sizeof(layout));
@@ -555,7 +561,8 @@ static int worker_case(const char *prog, void *arg)
     return 0;
 }
 
-static double h_hang_s = 30.0;   /* a single case takes milliseconds (windows: < 1 s) */
+static double h_hang_s = 150.0;  /* no heartbeat (every 256 events written / compared, and per case) for this long = hang; generous because
+                                  * one mmap/munmap can take many ms when the machine is oversubscribed */
 typedef struct { pid_t pid; int unit; long skip; } wrk_t;
 static int spawn_worker(wrk_t *W, int s, unit_t *units)
 {
@@ -697,20 +704,20 @@ int main(int argc, char **argv)
     if (freshlen < 0) freshlen = thorough ? 3 : 2;
 
     static unit_t U[1 << 16]; int nu;
-    if (!only || !strcmp(only, "windows")) {
-        nu = 0; for (int c = cfg_win0; c < ncfg_win; c++) nu = add_units(U, nu, "windows", c, maxlen, (long)win_nseg * win_phases, thorough ? 4 : 1);
-        rc |= run_leg("windows", U, nu, jobs, deadline);
-    }
+    if ((!only || !strcmp(only, "fresh"))) { nu = 0; for (int c = 0; c < (thorough ? ncfg_seq : 3); c++) nu = add_units(U, nu, "fresh", c, 0, fresh_count(), 1); rc |= run_leg("fresh", U, nu, jobs, deadline); }
+    if (!rc && (!only || !strcmp(only, "dict"))) { nu = add_units(U, 0, "dict", 0, 0, dict_count(), 10); rc |= run_leg("dict", U, nu, jobs, deadline); }
+    if (!rc && (!only || !strcmp(only, "infos"))) { nu = add_units(U, 0, "infos", 0, 0, infos_n, 10); rc |= run_leg("infos", U, nu, jobs, deadline); }
     if (!rc && (!only || !strcmp(only, "runs"))) {
         nu = 0; for (int c = 0; c < ncfg_runs; c++) nu = add_units(U, nu, "runs", cfg_runs0 + c, 0, runs_count(), 40);
         rc |= run_leg("runs", U, nu, jobs, deadline);
     }
-    if (!rc && (!only || !strcmp(only, "dict"))) { nu = add_units(U, 0, "dict", 0, 0, dict_count(), 10); rc |= run_leg("dict", U, nu, jobs, deadline); }
-    if (!rc && (!only || !strcmp(only, "infos"))) { nu = add_units(U, 0, "infos", 0, 0, infos_n, 10); rc |= run_leg("infos", U, nu, jobs, deadline); }
-    if (!rc && (!only || !strcmp(only, "fresh"))) { nu = 0; for (int c = 0; c < (thorough ? ncfg_seq : 3); c++) nu = add_units(U, nu, "fresh", c, 0, fresh_count(), 1); rc |= run_leg("fresh", U, nu, jobs, deadline); }
+    if (!rc && (!only || !strcmp(only, "windows"))) {
+        nu = 0; for (int c = cfg_win0; c < ncfg_win; c++) nu = add_units(U, nu, "windows", c, maxlen, (long)win_nseg * win_phases, thorough ? 4 : 1);
+        rc |= run_leg("windows", U, nu, jobs, deadline);
+    }
     if (!rc && (!only || !strcmp(only, "seq"))) {
         nu = 0;
-        /* long lengths first so that the tail of the schedule is made of small units */
+        /* (legs are ordered cheap-first so that a deadline cut only shortens the big windows / seq legs) long lengths first so that the tail of the schedule is made of small units */
         for (int n = freshlen; n >= 0; n--) for (int c = 0; c < ncfg_seq; c++) { if (!thorough && c == 2 && n > 1) continue;   /* quick: the third configuration only up to length 1 */
             long chunk = 160 / (1 + 3 * n); nu = add_units(U, nu, "seq", c, n, seq_count(n), chunk < 1 ? 1 : chunk); }
         rc |= run_leg("seq", U, nu, jobs, deadline);
